@@ -33,7 +33,9 @@ impl HirResultsIndex {
                 idx: idx as u32,
             };
             if let Some(ptr) = hir_table.expr_ptr(expr_id) {
-                expr_by_ptr.insert(ptr, expr_id);
+                // A package's table covers all its files and a pointer is only (kind, range): two
+                // files can have the same one. The queried file is lowered first; keep its entry.
+                expr_by_ptr.entry(ptr).or_insert(expr_id);
             }
         }
 
@@ -43,13 +45,13 @@ impl HirResultsIndex {
                 idx: idx as u32,
             };
             if let Some(ptr) = hir_table.pat_ptr(pat_id) {
-                pat_by_ptr.insert(ptr, pat_id);
+                pat_by_ptr.entry(ptr).or_insert(pat_id);
             }
         }
 
         for (local_id, _info) in hir_table.iter_locals() {
             if let Some(ptr) = hir_table.local_origin_ptr(local_id) {
-                local_by_ptr.insert(ptr, local_id);
+                local_by_ptr.entry(ptr).or_insert(local_id);
             }
         }
 
